@@ -62,7 +62,7 @@ func main() {
 	run := ev.Start("C17", "exploration")
 	defer run.Finish()
 	run.Exhaustive(true)
-	run.Rule("every entry of omniwitness/logs.yaml and omniwitness/logs_test.yaml as found in the working tree (the former compared with the embedded ConfigLogs) is a case: YAML decode, config.NewLog, AsLogMap collision check, known feeder, well-formed http(s) URL, Rekor treeID present; every entry with a feeder has its real FeedFunc run once against a transport that records and refuses every request (must reach a well-formed request to the configured host and fail with the transport's error, no panic); finally omniwitness.Main is started on each shipped configuration with polling and the REST distributor on: it must serve, and the IDs its distributor looks up (Main's own derived log list, observed at the store) must be exactly the witness map's. evaluations = entries + feeder starts + Main starts; nontrivial = distinct entries that have a feeder")
+	run.Rule("every entry of omniwitness/logs.yaml and omniwitness/logs_test.yaml as found in the working tree (the former compared with the embedded ConfigLogs) is a case: YAML decode, config.NewLog, AsLogMap collision check, known feeder, well-formed http(s) URL, Rekor treeID present; every entry with a feeder has its real FeedFunc run once against a transport that records and refuses every request (must reach a well-formed request to the configured host and fail with the transport's error, no panic); finally omniwitness.Main is started on each shipped configuration with polling and the REST distributor on: it must serve, and the IDs its distributor looks up (Main's own derived log list, observed at the store) must be exactly the witness map's, and the hosts its feeders poll must be exactly the hosts of the entries whose feeder, read as plain text from the YAML, is not none. evaluations = entries + feeder starts + Main starts; nontrivial = distinct entries that have a feeder")
 	run.Assume("network access is replaced by a refusing transport; only start-up and the first request of each feeder are exercised")
 	run.Floor("entries", 2)
 	repo := os.Getenv("VERIF_REPO")
@@ -263,7 +263,84 @@ func startMain(run *ev.Run, name string, raw []byte) {
 			time.Sleep(10 * time.Millisecond)
 		}
 	}
-	time.Sleep(400 * time.Millisecond) // a few poll cycles of every feeder
+	// The feeder list Main derives must describe the logs the YAML text describes: read the feeder NAME of
+	// every entry as plain text (no enum involved). Hosts of entries with a feeder must be polled; hosts that
+	// only belong to entries configured "none" must never be. Waiting is in logical steps: a host is judged
+	// never-polled once every other expected host has been polled three times (20 s watchdog: inconclusive).
+	var plain struct {
+		Logs []struct {
+			Origin string `yaml:"Origin"`
+			URL    string `yaml:"URL"`
+			Feeder string `yaml:"Feeder"`
+		} `yaml:"Logs"`
+	}
+	_ = yaml.Unmarshal(raw, &plain)
+	expectHost, noneHost := map[string]string{}, map[string]string{}
+	for _, e := range plain.Logs {
+		pu, err := url.Parse(e.URL)
+		if err != nil || pu.Host == "" {
+			continue
+		}
+		if strings.EqualFold(strings.TrimSpace(e.Feeder), "none") {
+			noneHost[pu.Host] = e.Origin
+		} else {
+			expectHost[pu.Host] = e.Origin
+		}
+	}
+	for h := range expectHost {
+		delete(noneHost, h)
+	}
+	polled := func() map[string]int {
+		tr.mu.Lock()
+		defer tr.mu.Unlock()
+		m := map[string]int{}
+		for _, u := range tr.seen {
+			m[u.Host]++
+		}
+		return m
+	}
+	pollDeadline := time.Now().Add(20 * time.Second)
+	var neverPolled []string
+	for ok {
+		m := polled()
+		neverPolled = nil
+		others := true
+		for h := range expectHost {
+			if m[h] == 0 {
+				neverPolled = append(neverPolled, h)
+			} else if m[h] < 3 {
+				others = false
+			}
+		}
+		if len(neverPolled) == 0 || (others && len(neverPolled) < len(expectHost)) {
+			break
+		}
+		if time.Now().After(pollDeadline) {
+			run.Inconclusive("watchdog: the feeders of the shipped configuration did not poll within 20 s")
+			neverPolled = nil
+			break
+		}
+		time.Sleep(20 * time.Millisecond)
+	}
+	time.Sleep(200 * time.Millisecond)
+	if ok {
+		m := polled()
+		sort.Strings(neverPolled)
+		for _, h := range neverPolled {
+			run.Violate("configured_feeder_never_polls;"+name, fmt.Sprintf("%s: %q is configured with a feeder, yet the running service never polled %s while every other feeder completed three cycles", name, expectHost[h], h), -1, map[string]any{"polled": m})
+		}
+		var wrongly []string
+		for h := range noneHost {
+			if m[h] > 0 {
+				wrongly = append(wrongly, h)
+			}
+		}
+		sort.Strings(wrongly)
+		for _, h := range wrongly {
+			run.Violate("feeder_none_is_polled;"+name, fmt.Sprintf("%s: %q is configured with feeder none, yet the running service polled %s", name, noneHost[h], h), -1, map[string]any{"polled": m})
+		}
+		run.Add("feeder_hosts_judged", int64(len(expectHost)+len(noneHost)))
+	}
 	select {
 	case err := <-done:
 		run.Violate("main_exits_while_polling", fmt.Sprintf("omniwitness.Main returned %v while polling the shipped logs", err), -1, nil)
